@@ -484,7 +484,7 @@ def gen_streams(repo):
     main_body = " ".join(fn_body(env_raw, r"pub\(crate\) fn main\(\) -> Result<Self> \{").split())
     if "let out_stream = OutputStream::stdout(style); let err_stream = OutputStream::stderr(style);" not in main_body:
         raise Untranslatable("Env::main stream construction")
-    if not re.search(r"Ok\(Self::new\( dir, env::args\(\), Box::new\(io::stdin\(\)\), out_stream, err_stream, \)\)", main_body):
+    if not re.search(r"Ok\(Self::new\( dir, env::args(?:_os)?\(\), Box::new\(io::stdin\(\)\), out_stream, err_stream, \)\)", main_body):
         raise Untranslatable("Env::main argument order")
     # OutputStream::stdout / stderr
     so = " ".join(fn_body(os_raw, r"pub\(crate\) fn stdout\(style: bool\) -> OutputStream \{").split())
